@@ -1,30 +1,43 @@
 """C12 — the CBC MAC-and-padding check accepts exactly the well-formed records.
 
 Theorems: lean/Props/C12.lean (cbcCheck = wellFormed for every input; sender's bodies are
-well formed; stripping returns the fragment; decomposition of accepted bodies).
-Tie: correspondence of Tls.CT.cbcCheck with ct_check_cbc_mac_and_pad on real hmac / MAC_SSL
-objects (the tags enter the model as a table computed here with the real object), and of
-addPadding / strip with RecordLayer.  Oracle: an independent plain specification in Python.
+well formed; stripping returns the fragment; decomposition of accepted bodies; gen_*: the
+functions regenerated from constanttime.py by translate/gen_ct.py compute the hand model).
+Tie: (1) regeneration - TlsModel/Gen/CT.lean is re-translated from the tree under check on every
+run and Gen.f = model is proved for all inputs; (2) correspondence of Tls.CT.cbcCheck with
+ct_check_cbc_mac_and_pad on real hmac / MAC_SSL objects (the tags enter the model as a table
+computed here with the real object), of addPadding / strip with RecordLayer, of the helper
+models with the helpers, and of the Python-int model Tls.Py with the interpreter.
+Oracle: an independent plain specification in Python (whole check and each ct_* helper).
 """
 import hashlib
 import hmac as pyhmac
 
 from ..leanclient import hx
 
-TRANSLATORS = []
+TRANSLATORS = ["ct"]
 
 MANIFEST = {
     "text": "Proof: Tls.CT.cbcCheck (statement-by-statement Lean model of ct_check_cbc_mac_and_pad, abstract incremental MAC) is "
             "proved equal to the plain specification wellFormed for every body, MAC, sequence number, type, version and block size "
             "(cbcCheck_eq_wellFormed); every body the sender builds is well formed and stripped back to the fragment "
             "(wellFormed_macThenPad, cbcCheck_macThenPad, stripPadMac_macThenPad); accepted bodies decompose into fragment++MAC++pad "
-            "(cbcCheck_accept_decomp). Tie: hand-written model checked by correspondence against the real function with real "
+            "(cbcCheck_accept_decomp). Tie: (1) translate/gen_ct.py re-translates ct_lt/gt/le/eq/neq/isnonzero_u32, ct_lsb_prop_u8/u16 and "
+            "ct_check_cbc_mac_and_pad statement by statement from the Python AST of the tree under check into Lean (Tls.CT.Gen over the "
+            "Python-int model Tls.Py; anything not understood is poison) and Gen.f = hand model is proved for all inputs (gen_*_eq, "
+            "gen_ct_check_cbc_mac_and_pad_eq, gen_cbcCheck_eq_wellFormed), so the theorems hold of the source text as it is now; "
+            "(2) the hand-written model is also checked by correspondence against the real function with real "
             "HMAC/MAC_SSL objects over boundary lengths, all 256 pad bytes, single-byte corruptions, the no-fit region and window edges, "
-            "plus an independent Python specification as direct oracle and RecordLayer._decryptThenMAC/addPadding runs.",
-    "note": "Trusted: Lean kernel (axioms propext, Classical.choice, Quot.sound), the correspondence harness, hashlib; the MAC is an "
+            "plus an independent Python specification as direct oracle (whole check and every ct_* helper against its docstring) "
+            "and RecordLayer._decryptThenMAC/addPadding runs.",
+    "note": "Trusted: Lean kernel (axioms propext, Classical.choice, Quot.sound), the translator translate/gen_ct.py and the "
+            "Python-runtime model TlsModel/PyInt.lean (its int operations are compared with the interpreter on every run), "
+            "the correspondence harness, hashlib; the MAC is an "
             "arbitrary function of the accumulated bytes with fixed output length. SSLv3 'at most one block' is read as pad byte <= block size. "
-            "Timing behaviour is not modelled.",
-    "technique": "Lean 4 proof of model = specification for all inputs; differential correspondence model vs implementation; spec oracle",
+            "Record bodies of 2^16 bytes and more (where the source raises ValueError) are outside gen_*; "
+            "timing behaviour is not modelled.",
+    "technique": "Lean 4 proof of model = specification for all inputs; model regenerated from the source AST and proved equal to the "
+                 "hand model; differential correspondence model vs implementation; spec oracle",
 }
 
 VERSIONS = [(3, 0), (3, 1), (3, 2), (3, 3)]
@@ -102,6 +115,13 @@ def lean_line(op, data, key, hname, seq, ct, ver, bs):
                                               hx(data), ",".join(table) if table else "-")
 
 
+def lean_lines(ops, *a):
+    """the same request under several ops (the MAC table is computed once)"""
+    first = lean_line(ops[0], *a)
+    rest = first[len(ops[0]):]
+    return [first] + [o + rest for o in ops[1:]]
+
+
 def impl_check(data, key, hname, seq, ct, ver, bs):
     from tlslite.utils.constanttime import ct_check_cbc_mac_and_pad
     mac, hname = make_mac(key, hname, ver)
@@ -134,8 +154,8 @@ def one_case(ctx, pending, kind, data, key, hname, seq, ct, ver, bs):
                 cls = "accept-mac-overlapping-padding"
         ctx.violation("c12:" + cls, "ct_check_cbc_mac_and_pad returned %s, specification says %s (%s, len %d, %s, version %s)"
                       % (impl, spec, kind, len(data), hname, ver), dict(case, impl=impl, spec=spec, stage="oracle"))
-    pending.append((case, impl, lean_line("cbc", data, key, hname, seq, ct, ver, bs),
-                    lean_line("wf", data, key, hname, seq, ct, ver, bs), spec))
+    l1, l2 = lean_lines(["cbc", "wf"], data, key, hname, seq, ct, ver, bs)
+    pending.append((case, impl, l1, l2, spec))
 
 
 def flush(ctx, pending):
@@ -246,6 +266,23 @@ def gen_cases(ctx):
                             b3 = bytearray(body)
                             b3[fl] ^= 0x10             # first MAC byte
                             yield ("edge-corrupt", bytes(b3), key, hname, seq, ct, ver, bs)
+                # scan-window alignment: long padding with the MAC position at, just below and just above
+                # a multiple of the hash block size (the position from which candidate MACs are computed
+                # is rounded down to it): honest, first MAC byte corrupted, last data byte corrupted
+                hb = 128 if hname == "sha384" else 64
+                for p in ((255, 254, 253, 250, 240) if thorough else (255, 254)):
+                    for k in ((1, 2, 3) if thorough else (1,)):
+                        for delta in (range(-3, 4) if thorough else (-2, -1, 0, 1)):
+                            fl = hb * k + delta
+                            frag = rb(fl)
+                            body = bytearray(build_body(frag, key, hname, seq, ct, ver, bs, padlen=p))
+                            yield ("window-align", bytes(body), key, hname, seq, ct, ver, bs)
+                            b2 = bytearray(body)
+                            b2[fl] ^= 0x01
+                            yield ("window-align-corrupt", bytes(b2), key, hname, seq, ct, ver, bs)
+                            b3 = bytearray(body)
+                            b3[fl - 1] ^= 0x80
+                            yield ("window-align-corrupt", bytes(b3), key, hname, seq, ct, ver, bs)
                 # random bodies
                 for _ in range(30 if thorough else 6):
                     yield ("random", rb(rng.randrange(0, 400)), key, hname, seq, ct, ver, bs)
@@ -398,14 +435,134 @@ def ct_prims(ctx):
     ctx.count("ct-helper-cases", len(lines))
 
 
+M32 = 0xffffffff
+
+# the ct_* helpers: name -> (arity, plain specification taken from the docstring; arguments are
+# "unsigned integers representable as 32 bit values", the functions mask them themselves)
+HELPER_SPECS = {
+    "ct_lt_u32": (2, lambda a, b: int((a & M32) < (b & M32))),
+    "ct_gt_u32": (2, lambda a, b: int((a & M32) > (b & M32))),
+    "ct_le_u32": (2, lambda a, b: int((a & M32) <= (b & M32))),
+    "ct_eq_u32": (2, lambda a, b: int((a & M32) == (b & M32))),
+    "ct_neq_u32": (2, lambda a, b: int((a & M32) != (b & M32))),
+    "ct_isnonzero_u32": (1, lambda v: int((v & M32) != 0)),
+    "ct_lsb_prop_u8": (1, lambda v: 0xff if v & 1 else 0),
+    "ct_lsb_prop_u16": (1, lambda v: 0xffff if v & 1 else 0),
+}
+BOUNDARY = [0, 1, 2, 3, 0x7f, 0x80, 0xff, 0x100, 0xffff, 0x10000, 0x7ffffffe, 0x7fffffff, 0x80000000, 0x80000001,
+            0xfffffffe, 0xffffffff, 0x100000000, 0x100000001, 0x17fffffff, 0x180000000, 0x1ffffffff]
+
+
+def helper_values(ctx, deep):
+    rng = ctx.rng
+    vals = list(BOUNDARY)
+    vals += [rng.getrandbits(32) for _ in range(40 if deep else 12)]
+    vals += [rng.getrandbits(33) for _ in range(20 if deep else 6)]
+    vals += [rng.getrandbits(16) for _ in range(10 if deep else 4)]
+    # neighbours: pairs that differ in one bit or by one are where a comparison trick breaks
+    base = [rng.getrandbits(32) for _ in range(10 if deep else 3)]
+    for v in base:
+        vals += [(v + 1) & 0x1ffffffff, v ^ (1 << rng.randrange(32)), v ^ 0x80000000]
+    small = list(range(0, 300 if deep else 34))
+    return vals, small
+
+
+def helper_oracle(ctx, deep=False):
+    """direct oracle: every ct_* helper of the tree under check against its plain specification on
+    exhaustive small values, the 32-bit boundaries and random 32/33-bit values.  `deep` (used when a
+    gen_* obligation no longer checks) widens every family."""
+    from tlslite.utils import constanttime as c
+    vals, small = helper_values(ctx, deep)
+    n = 0
+    for name in sorted(HELPER_SPECS):
+        arity, spec = HELPER_SPECS[name]
+        f = getattr(c, name, None)
+        if f is None:
+            ctx.violation("c12:ct-helper-missing", "tlslite.utils.constanttime.%s does not exist" % name,
+                          {"stage": "helper", "fn": name, "args": []})
+            continue
+        if arity == 1:
+            argsets = [(v,) for v in small + vals]
+        else:
+            argsets = [(a, b) for a in small for b in small] + [(a, b) for a in vals for b in vals] + \
+                      [(a, b) for a in small[:8] for b in vals] + [(a, b) for a in vals for b in small[:8]]
+        for args in argsets:
+            try:
+                got = f(*args)
+            except Exception as e:
+                got = "exception:" + type(e).__name__
+            want = spec(*args)
+            n += 1
+            if got != want:
+                ctx.violation("c12:ct-helper-" + name,
+                              "%s(%s) returned %r, its specification (docstring) says %r"
+                              % (name, ", ".join("0x%x" % a for a in args), got, want),
+                              {"stage": "helper", "fn": name, "args": list(args), "got": got, "want": want})
+                break
+        ctx.case(key=("helper", name, deep), sample={"helper": name, "cases": len(argsets)} if name == "ct_lt_u32" else None)
+    ctx.count("helper-oracle-cases" + ("-deep" if deep else ""), n)
+
+
+def pyint_stream(ctx):
+    """the Python-int model Tls.Py (target language of translate/gen_ct.py) against the interpreter:
+    & | ^ ~ << >> // max min on operands of both signs"""
+    lc = ctx.lean()
+    if lc is None:
+        return
+    rng = ctx.rng
+    vals = [0, 1, -1, 2, -2, 5, -5, 0xff, -0xff, 0x100, -0x100, 0x7fffffff, -0x7fffffff, 0x80000000, -0x80000000,
+            0xffffffff, -0xffffffff, 0x100000000, -0x100000000, -0x100000001, 1 << 64, -(1 << 64)]
+    for _ in range(ctx.pick(16, 80)):
+        bits = rng.choice([3, 8, 31, 32, 33, 64, 70])
+        v = rng.getrandbits(bits)
+        vals.append(v if rng.random() < 0.5 else -v)
+    ops = {"and": lambda a, b: a & b, "or": lambda a, b: a | b, "xor": lambda a, b: a ^ b,
+           "max": lambda a, b: max(a, b), "min": lambda a, b: min(a, b), "fdiv": lambda a, b: a // b}
+    lines, exp = [], []
+    for a in vals:
+        for b in vals:
+            for op in sorted(ops):
+                try:
+                    e = str(ops[op](a, b))
+                except ZeroDivisionError:
+                    e = "exc"
+                lines.append("py %s %d %d" % (op, a, b))
+                exp.append(e)
+        for k in (-1, 0, 1, 2, 4, 8, 31, 32, 33, 70):
+            for op, f in (("shl", lambda x, n: x << n), ("shr", lambda x, n: x >> n)):
+                try:
+                    e = str(f(a, k))
+                except ValueError:
+                    e = "exc"
+                lines.append("py %s %d %d" % (op, a, k))
+                exp.append(e)
+        lines.append("py not %d" % a)
+        exp.append(str(~a))
+    out = lc.batch(lines)
+    for l, o, e in zip(lines, out, exp):
+        ctx.compared()
+        if o != e:
+            ctx.disagree("pyint", l, o, e)
+    ctx.case(key=("pyint", len(lines)), sample=None)
+    ctx.count("pyint-cases", len(lines))
+
+
+def gen_obligations_broken(ctx):
+    b = ctx.build or {}
+    return [t for t in b.get("failed", []) if ".gen_" in t or t.startswith("gen_") or t.startswith("Props.")]
+
+
 def run(ctx):
-    ctx.rule = ("bodies built by an independent sender (every listed fragment length x version x MAC x block size, "
+    ctx.rule = ("ct_* helpers on exhaustive small values, 32-bit boundaries and random 32/33-bit values against their docstring specification; "
+                "bodies built by an independent sender (every listed fragment length x version x MAC x block size, "
                 "every padding byte), single-byte corruptions, wrong seq/type/key, bodies where padding+MAC do not fit, "
-                "256-byte window edges, random bodies; distinct = distinct (body,key,hash,seq,type,version,bs); "
+                "256-byte window edges, scan-window alignment (MAC position around multiples of the hash block with 250..255 padding bytes), random bodies; distinct = distinct (body,key,hash,seq,type,version,bs); "
                 "non-trivial = non-empty body")
     ctx.assumptions = ["HMAC / MAC_SSL objects are functions of their accumulated input (hashlib)",
                        "Python spec oracle harness/props/c12.py:spec_well_formed is the property's plain reading",
-                       "SSLv3: 'at most one block' read as padding-length byte <= block size (what the code and the model use)"]
+                       "SSLv3: 'at most one block' read as padding-length byte <= block size (what the code and the model use)",
+                       "translate/gen_ct.py renders the Python AST faithfully into Tls.Py (TlsModel/PyInt.lean); Tls.Py's int operations "
+                       "are Python's (compared with the interpreter, stream pyint)"]
     pending = []
     for c in gen_cases(ctx):
         one_case(ctx, pending, *c)
@@ -414,10 +571,30 @@ def run(ctx):
     flush(ctx, pending)
     recordlayer_cases(ctx)
     ct_prims(ctx)
+    pyint_stream(ctx)
+    helper_oracle(ctx)
+    broken = gen_obligations_broken(ctx)
+    if broken:
+        # the regenerated source no longer computes the hand model: look for a concrete input on which
+        # the real functions leave their specification (the streams above already ran on the whole
+        # check; this adds the widened search around the helpers)
+        ctx.extra["gen_obligations_broken"] = broken
+        if not any(v["found"] for v in ctx.violations):
+            helper_oracle(ctx, deep=True)
 
 
 def replay(ctx, rep):
     inp = rep["input"]
+    if inp.get("stage") == "helper":
+        from tlslite.utils import constanttime as c
+        arity, spec = HELPER_SPECS[inp["fn"]]
+        try:
+            got = getattr(c, inp["fn"])(*inp["args"])
+        except Exception as e:
+            got = "exception:" + type(e).__name__
+        want = spec(*inp["args"])
+        print("%s(%s) = %r, specification: %r" % (inp["fn"], ", ".join(map(str, inp["args"])), got, want))
+        return got != want
     if inp.get("stage") in (None, "oracle") and "data" in inp:
         data = bytes.fromhex(inp["data"])
         key = bytes.fromhex(inp["key"])
